@@ -110,7 +110,7 @@ def run_histories(ctx, res, n_hist, max_steps, store_kinds=("memory",), nfun=Non
         if allow == "chain":
             w = progs.gen_chain_world(rng)
         elif allow == "multi":
-            w = progs.gen_world(rng, nfun=nfun, multi=True)
+            w = progs.gen_site_mix_world(rng) if h % 2 else progs.gen_world(rng, nfun=nfun, multi=True)
         else:
             w = progs.gen_world(rng, nfun=nfun, allow=allow)
         if world_filter and not world_filter(w):
